@@ -1,6 +1,6 @@
 (* Wire-level dispatch: function id -> decoder -> model function -> encoder.
    The harness reads the `fn_*` table below (single source of the ids).  Glue only. *)
-From SG Require Import Base.Prelude Base.Val Base.NumpyPrims Model.Pairs Model.Groups Model.Estimators Model.Sparse Model.Binning Model.Kriging Model.Jackknife Model.SpaceTime Model.SumModels Model.VarioSM Model.Fit.
+From SG Require Import Base.Prelude Base.Val Base.NumpyPrims Model.Pairs Model.Groups Model.Estimators Model.Sparse Model.Binning Model.Kriging Model.Jackknife Model.SpaceTime Model.SumModels Model.VarioSM Model.Fit Model.Alias.
 
 Definition fn_pairs : Z := 1.
 Definition fn_groups : Z := 2.
@@ -42,6 +42,18 @@ Definition fn_parameters : Z := 37.
 Definition fn_krige_args : Z := 38.
 Definition fn_fit_inputs : Z := 39.
 Definition fn_bounds_sum : Z := 40.
+Definition fn_percentile : Z := 41.
+Definition fn_alias_run : Z := 42.
+
+Definition getAop (v : val) : option aop :=
+  match v with
+  | VL [VZ 0%Z; c; x] => do c <- getN c; do x <- getN x; Some (Construct c x)
+  | VL [VZ 1%Z; x] => do x <- getN x; Some (Alias.SetValues x)
+  | VL [VZ 2%Z; l; x] => do l <- getN l; do x <- getN x; Some (ExtWrite l x)
+  | VL [VZ 3%Z] => Some GetBins
+  | VL [VZ 4%Z] => Some Clone
+  | VL [VZ 5%Z] => Some Observe
+  | _ => None end.
 
 (* ---- wire encoding of the C06 state machine ---- *)
 Definition getBinf (v : val) : option binf :=
@@ -95,7 +107,7 @@ Definition getOp (v : val) : option op :=
   | VL [VZ 7%Z; x] => do k <- getN x; Some (SetFitMethod k)
   | VL [VZ 8%Z; x] => do k <- getN x; Some (SetFitSigma k)
   | VL [VZ 9%Z; x] => do k <- getN x; Some (SetDist k)
-  | VL [VZ 10%Z; x] => do k <- getN x; Some (SetValues k)
+  | VL [VZ 10%Z; x] => do k <- getN x; Some (VarioSM.SetValues k)
   | VL [VZ 11%Z; x] => do k <- getN x; Some (SetAzimuth k)
   | VL [VZ 12%Z; x] => do k <- getN x; Some (SetTolerance k)
   | VL [VZ 13%Z; x] => do k <- getN x; Some (SetBandwidth k)
@@ -228,6 +240,10 @@ Definition run_fn (f : Z) (a : list val) : option val :=
             Some (VL [ofList ofQ (fit_x b e); ofList ofQ (fit_y e); match sg with Some sv => ofList ofQ (fit_sigma sv e) | None => VNone end])
   | 40%Z => do ks <- getList (getOpt getQ) (arg a 0); do mx <- getQ (arg a 1); do my <- getQ (arg a 2); do u <- getB (arg a 3);
             Some (ofList ofQ (bounds_sum ks mx my u))
+  | 41%Z => do x <- getList getQ (arg a 0); do q <- getQ (arg a 1); Some (ofOpt ofQ (percentile x q))
+  | 42%Z => do m <- getList (fun v => match v with VL [a; b] => do a <- getN a; do b <- getN b; Some (a, b) | _ => None end) (arg a 0);
+            do n <- getN (arg a 1); do ops <- getList getAop (arg a 2);
+            Some (ofList (ofOpt (ofList ofN)) (arun (init m n) ops))
   | _ => None
   end.
 
